@@ -195,7 +195,7 @@ func TestC13(t *testing.T) {
 		return
 	}
 
-	search(t, rec, "blocks", budget(3000, 64000), 0, func(rt *rapid.T) {
+	search(t, rec, "blocks", budget(3000, 320000), 0, func(rt *rapid.T) {
 		p := genC13(rt)
 		sig, msg, low := c13Run(c, p, rec)
 		if sig != "" {
